@@ -271,7 +271,9 @@ Inductive qel :=
 | QByte (a : ascii)            (* an ASCII byte other than the quote, the backslash and the newline, as itself *)
 | QRune (s : string)           (* a well-formed multi-byte UTF-8 sequence, as itself *)
 | QSimple (c : ascii)          (* \a \b \f \n \r \t \v \\ \'' *)
-| QHex (b : N).                (* \xHH: any byte *)
+| QHex (b : N)                 (* \xHH: any byte *)
+| QOct (b : N)                 (* \ooo: any byte *)
+| QU4 (v : N).                 (* \uXXXX: a rune below 65536 that is no surrogate; its UTF-8 encoding *)
 
 Fixpoint all_bytes (p : N -> bool) (s : string) : bool :=
   match s with EmptyString => true | String a r => p (byte a) && all_bytes p r end.
@@ -286,13 +288,19 @@ Definition qel_ok (e : qel) : bool :=
                end
   | QSimple c => match simple_escape (byte c) with Some _ => true | None => false end
   | QHex b => b <? 256
+  | QOct b => b <? 256
+  | QU4 v => valid_rune v && (v <? 65536)
   end.
+Definition octdigit (d : N) : ascii := ascii_of_N (48 + d).
 Definition qel_text (e : qel) : string :=
   match e with
   | QByte a => String a EmptyString
   | QRune s => s
   | QSimple c => String "\" (String c EmptyString)
   | QHex b => String "\" (String "x" (String (hexdigit (b / 16)) (String (hexdigit (b mod 16)) EmptyString)))
+  | QOct b => String "\" (String (octdigit (b / 64)) (String (octdigit ((b / 8) mod 8)) (String (octdigit (b mod 8)) EmptyString)))
+  | QU4 v => String "\" (String "u" (String (hexdigit (v / 4096)) (String (hexdigit ((v / 256) mod 16))
+             (String (hexdigit ((v / 16) mod 16)) (String (hexdigit (v mod 16)) EmptyString)))))
   end.
 Definition qel_value (e : qel) : string :=
   match e with
@@ -300,6 +308,8 @@ Definition qel_value (e : qel) : string :=
   | QRune s => s
   | QSimple c => match simple_escape (byte c) with Some v => String (ascii_of_N v) EmptyString | None => EmptyString end
   | QHex b => String (ascii_of_N b) EmptyString
+  | QOct b => String (ascii_of_N b) EmptyString
+  | QU4 v => utf8_encode v
   end.
 Definition sconcat (l : list string) : string := fold_right append EmptyString l.
 Definition quoted_text (els : list qel) : string := sconcat (map qel_text els).
